@@ -65,6 +65,7 @@ type Case struct {
 	RecJ    *RecJ    `json:"recj,omitempty"`    // record: schema and column values as marshalled (for the model)
 	RowsJ   []RowJ   `json:"rowsj,omitempty"`   // rows: the batch, field by field (for the model)
 	Seed    uint64   `json:"seed,omitempty"`    // rows/record: generator seed of the case
+	St      [][][]uint64 `json:"st,omitempty"`  // file: stored statistics [series][column] = min max minT maxT sum count, as the reader decodes them
 	V1      string   `json:"v1,omitempty"`      // string: the same strings as a version-1 block (hex)
 	CMode   int      `json:"cmode,omitempty"`   // file: chunk-meta-compress-mode the file was written under
 	CMS     *CMSJ    `json:"cms,omitempty"`     // col: the chunk meta as marshalled under chunk-meta-compress-mode = self
